@@ -190,9 +190,9 @@ MUTANTS = [
     dict(id="C18-mask-shift", prop="C18", file=SL,
          old="    bit_mask = UINT.encode(2 ** bit_position) if bit_field else b\"\\xFF\\xFF\"",
          new="    bit_mask = UINT.encode(2 ** ((bit_position + 1) % 16)) if bit_field else b\"\\xFF\\xFF\""),
-    dict(id="C18-pre-acc-swapped", prop="C18", file="pycomm3/cip/pccc.py",
-         old="    \"PRE\": 1,\n    \"ACC\": 2,",
-         new="    \"PRE\": 2,\n    \"ACC\": 1,"),
+    dict(id="C18-pre-acc-offsets-swapped", prop="C18", file=SL,
+         old="                        unpack_func(data[new_value + 2 : new_value + 2 + data_size]),",
+         new="                        unpack_func(data[new_value + 4 : new_value + 4 + data_size]),"),
     dict(id="C18-file-range-dropped", prop="C18", file=SL,
          old="            if (1 <= int(t.group(\"file_number\")) <= 255) and (\n                0 <= int(t.group(\"element_number\")) <= 255\n            ):",
          new="            if (0 <= int(t.group(\"file_number\")) <= 999) and (\n                0 <= int(t.group(\"element_number\")) <= 255\n            ):"),
